@@ -50,6 +50,22 @@ fn dedup_sorted(mut v: Vec<usize>) -> Vec<usize> {
     v
 }
 
+/// `--rare-last`: also try the rarely used entry points as the last operation of a depth >= 4 exploration (thorough tiers)
+pub static RARE_LAST: std::sync::atomic::AtomicBool = std::sync::atomic::AtomicBool::new(false);
+
+/// Rarely used entry points whose effect does not depend on a deep history: in the quick tier they are tried as the first
+/// and the second operation after the root (and the states they lead to are explored to the full depth), not deeper.
+pub fn is_rare(op: &Op) -> bool {
+    match op.k {
+        K::MWriteStr => op.b >= 1,
+        K::MExtendLie => op.t == 1,
+        K::MResize => op.b == 1,
+        K::MChunkMut => op.b == 1,
+        K::MUninitApi | K::MIntoIter | K::BIntoIter | K::BSliceBounds => true,
+        _ => false,
+    }
+}
+
 /// Enabled operations at the current state, simplest first.
 pub fn enabled(w: &World, cfg: &Cfg) -> Vec<Op> {
     let mut v: Vec<Op> = vec![];
@@ -189,6 +205,9 @@ pub fn enabled(w: &World, cfg: &Cfg) -> Vec<Op> {
                 for a in dedup_sorted(vec![0, l.saturating_sub(1), l + 1, c, c + 1, c + 3]) {
                     add(&mut v, Op::new(K::MResize, i, 0, a, 0));
                 }
+                // growing with the fill byte 0 (zero-fill fast paths)
+                add(&mut v, Op::new(K::MResize, i, 0, c + 1, 1));
+                add(&mut v, Op::new(K::MResize, i, 0, l + 1, 1));
                 let mut rs = vec![0, 1, c - l, c - l + 1, 64, 1000];
                 if t >= l {
                     rs.push(t - l);
@@ -208,6 +227,12 @@ pub fn enabled(w: &World, cfg: &Cfg) -> Vec<Op> {
                     add(&mut v, Op::new(K::MWriteStr, i, 0, a, 0));
                     add(&mut v, Op::new(K::MChunkMut, i, 0, a, 0));
                 }
+                // multi-byte characters through fmt::Write::write_char / write_fmt; chunk_mut asked twice before the commit
+                add(&mut v, Op::new(K::MWriteStr, i, 0, 1, 1));
+                add(&mut v, Op::new(K::MWriteStr, i, 0, 1, 2));
+                add(&mut v, Op::new(K::MWriteStr, i, 0, 2, 3));
+                add(&mut v, Op::new(K::MWriteStr, i, 0, 1, 4));
+                add(&mut v, Op::new(K::MChunkMut, i, 0, 2, 1));
                 for a in dedup_sorted(vec![0, 2, c - l + 1].into_iter().filter(|&a| a <= 8).collect()) {
                     add(&mut v, Op::new(K::MPutBuf, i, 0, a, 1));
                     add(&mut v, Op::new(K::MExtendIter, i, 0, a, 0));
@@ -223,6 +248,9 @@ pub fn enabled(w: &World, cfg: &Cfg) -> Vec<Op> {
                     add(&mut v, Op::new(K::MExtendLie, i, 0, c - l + 1, usize::MAX));
                     add(&mut v, Op::new(K::MExtendLie, i, 0, 1, ISIZE_MAX + 1));
                 }
+                // exact-looking hints (lower == upper) that under-report
+                add(&mut v, Op::new(K::MExtendLie, i, 1, c - l + 1, 0));
+                add(&mut v, Op::new(K::MExtendLie, i, 1, c - l + 2, 1));
                 add(&mut v, Op::new(K::MExtendPanic, i, 0, c - l + 1, 0));
                 add(&mut v, Op::new(K::MExtendPanic, i, 0, 1, 0));
                 add(&mut v, Op::new(K::MExtendPanic, i, 0, c - l + 1, c - l + 2));
@@ -277,6 +305,7 @@ pub fn enabled(w: &World, cfg: &Cfg) -> Vec<Op> {
                     }
                     add(&mut v, Op::new(K::MResize, i, 0, usize::MAX, 0));
                     add(&mut v, Op::new(K::MResize, i, 0, ISIZE_MAX + 1, 0));
+                    add(&mut v, Op::new(K::MResize, i, 0, usize::MAX, 1));
                     add(&mut v, Op::new(K::MTruncate, i, 0, usize::MAX, 0));
                 }
             }
@@ -285,6 +314,11 @@ pub fn enabled(w: &World, cfg: &Cfg) -> Vec<Op> {
     if free && w.roots_used < cfg.max_roots && on(K::Root) {
         for (k, n) in [(R_BVEC_EXACT, 4usize), (R_BVEC_SPARE, 1), (R_MFROM, 4)] {
             v.push(Op::new(K::Root, 0, 0, k, n));
+        }
+        if oracle::is_adjacent() {
+            // back-to-back allocations: a second buffer that is already in the shared form and full (what an adjacency
+            // test that forgets to compare the owners would merge)
+            v.push(Op::new(K::Root, 0, 0, R_MSHARED_FULL, 4));
         }
     }
     v
@@ -440,8 +474,12 @@ impl Explorer {
                 w.drop_all(&live);
                 let _ = oracle::end_execution();
                 let _ = oracle::take_violation();
+                let skip_rare = depth > 2.max(cfg.depth.saturating_sub(2)) && !RARE_LAST.load(std::sync::atomic::Ordering::Relaxed);
                 for (ai, act) in acts.iter().enumerate() {
                     if depth == 1 && cfg.shard.1 > 1 && ai % cfg.shard.1 != cfg.shard.0 {
+                        continue;
+                    }
+                    if skip_rare && is_rare(act) {
                         continue;
                     }
                     let mut h2 = hist.clone();
